@@ -72,3 +72,36 @@ contract("uxarray.grid.dual._order_nodes", props=["C18"],
                       "store pick, j, ix_next_node",
                       "assert ang(pick[j]) == d_next_angle"]},
          raises=[("Exception", "False", "only_if")])
+
+
+# ---- get_dual (C18 dataflow): the dual grid is built from THIS grid's face centres (its nodes) and the faces construct_dual derives
+# from THIS grid; a data array keeps its values and name, with the face and node dimensions exchanged, on that dual grid -------------
+_G = "uxarray.grid.grid.Grid."
+_DU = "uxarray.grid.dual."
+_VAL = "uxarray.grid.validation._check_duplicate_nodes_indices"
+_SUMM = [_G + "face_lon", _G + "face_lat", _G + "from_topology", _G + "hole_edge_indices", _DU + "construct_dual", _VAL]
+
+
+def _dual_of(g):
+    return (f"summary('{_G}from_topology', {g}, attr(summary('{_G}face_lon', {g}), 'values'), attr(summary('{_G}face_lat', {g}), 'values'), "
+            f"summary('{_DU}construct_dual', {g}), None, 0, None, {{}})")
+
+
+contract(_G + "get_dual", props=["C18"],
+         params={"self": "obj('Grid')"}, returns="opaque",
+         ensures=[f"same(result, {_dual_of('self')})"],
+         options={"abstract": True, "summaries": _SUMM},
+         raises=[("RuntimeError", "True", "only_if")])
+
+for _d in (("n_node",), ("time", "n_face"), ("n_face", "lev")):
+    _swap = {"n_face": "n_node", "n_node": "n_face"}
+    contract("uxarray.core.dataarray.UxDataArray.get_dual", props=["C18"], variant="dims=" + ",".join(_d),
+             params={"self": f"obj('UxDataArray', dims={_d!r})"}, returns="opaque",
+             ensures=[f"same(result.uxgrid, {_dual_of('self.uxgrid')})",
+                      f"result.dims == {[_swap.get(x, x) for x in _d]!r}",
+                      "same(result.name, self.name)",
+                      # a copy of the values, position by position
+                      ("forall(0, shape(self.values)[0], lambda i: result.values[i] == self.values[i])" if len(_d) == 1 else
+                       "forall(0, shape(self.values)[0], 0, shape(self.values)[1], lambda i, j: result.values[i, j] == self.values[i, j])")],
+             options={"abstract": True, "summaries": _SUMM},
+             raises=[("RuntimeError", "True", "only_if")])
